@@ -133,6 +133,17 @@ def programs(reqbuf, quick):
     stateful("chdir", ["chdir(p: string) -> int"], ["a: int = 0", "b: int = 0", "c: int = 0", "r: int = 0"],
              ["set a (str_length (getcwd))", "set r (chdir \"c15.dir3\")", "set b (str_length (getcwd))", "set r (+ r (chdir \"..\"))", "set c (str_length (getcwd))"],
              ["(- b a)", "(- c a)", "r"])
+    # arrays as arguments of a user-declared extern, elements of unequal encoded size (the request is sized from the arguments)
+    def arrarg(name, ety, lits):
+        decl = "extern fn dyn_array_length(a: array<%s>) -> int\n" % ety
+        body = "".join("    let a%d: array<%s> = %s\n" % (k, ety, l) for k, l in enumerate(lits)) + "    let mut n: int = 0\n" + \
+            "".join("    unsafe { set n (dyn_array_length a%d) }\n    (println n)\n" % k for k in range(len(lits)))
+        P.append(("arrarg." + name, "extern:dyn_array_length(array<%s>)" % ety, "arr", 6 + 9 * 4,
+                  decl + HELPERS + "fn main() -> int {\n    (println \"begin\")\n" + body + "    (println \"end\")\n    return 0\n}\nshadow main { assert true }\n"))
+    arrarg("strings", "string", ['[]', '["aa", "bb", "cc"]', '["a long first element", "b", ""]', '["", "b", "a longer later element"]',
+                                  '["", "", "", (rep 300), ""]', '[(rep 5000), "x"]', '["x", (rep 9000)]'])
+    arrarg("ints", "int", ['[]', '[0]', '[1, -1, 9223372036854775807]', '[0, 0, 0, 0, 0, 0, 0, 0, 0, 0, 0, 0, 0, 0, 0, 0, 0, 0, 0, 0, 1]'])
+    arrarg("bools", "bool", ['[true]', '[false, true, false]'])
     for n in ([100, 5000, 70000, 1048570, 1048571, 2000000] if not quick else [100, 70000, 1048571, 2000000]):
         P.append(("file_read.%d" % n, "file_read", "result", 5 + 12, prog(["(println (str_length (file_read \"c15.big%d\")))" % n])))
     return P
